@@ -232,7 +232,7 @@ def gen_scenario(rng, ops=None, force=None):
         T = rng.randint(2, 4)  # very short series (both paths may legitimately refuse them)
     if "shape" in force:
         T, Y, X = force["shape"]
-    elif BIG_FRACTION and rng.random() < BIG_FRACTION:
+    elif rng.random() < BIG_FRACTION:  # (always drawn, so the stream does not depend on the tier)
         # thorough tier: a share of larger cubes (more tasks per graph, longer series)
         T = rng.randint(25, 48)
         Y = rng.randint(4, 10)
